@@ -1,1 +1,2 @@
-import Casket.Model.Policy
+-- Root of the library: every property file (statements + proofs) is built by `lake build`.
+import Casket.Props.C05
